@@ -8,6 +8,7 @@ require (
 	github.com/miekg/dns v1.1.34
 	github.com/pkg/errors v0.9.1
 	github.com/sirupsen/logrus v1.6.0
+	github.com/xtaci/kcp-go/v5 v5.6.1
 )
 
 require (
@@ -25,7 +26,6 @@ require (
 	github.com/templexxx/cpu v0.0.7 // indirect
 	github.com/templexxx/xorsimd v0.4.1 // indirect
 	github.com/tjfoc/gmsm v1.3.2 // indirect
-	github.com/xtaci/kcp-go/v5 v5.6.1 // indirect
 	github.com/xtaci/smux v1.5.14 // indirect
 	github.com/youmark/pkcs8 v0.0.0-20200520070018-fad002e585ce // indirect
 	go.chromium.org/luci v0.0.0-20201018155654-3aac261c05da // indirect
